@@ -35,6 +35,7 @@ from .model.profile_data import ProfileData
 from .model.run_id      import RunId
 from .output            import UIError
 from .rebenchdb         import get_current_time
+from .ui                import escape_braces
 
 if TYPE_CHECKING:
     from .ui import UI
@@ -291,28 +292,34 @@ class _FilePersistence(_ConcretePersistence):
                 if filtered_data_file:
                     filtered_data_file.write(line)
 
-                if line.startswith(_METADATA_BENCHMARK):
-                    rest_line = line[len(_METADATA_BENCHMARK):]
-                    bench_id, bench_json = rest_line.split("=", 1)
-                    bench_dict = json.loads(bench_json)
-                    benchmark = self._data_store.create_benchmark_from_dict(bench_dict)
-                    assert benchmark not in self._benchmarks_in_file
-                    self._benchmarks_in_file[benchmark] = int(bench_id)
-                    assert len(self._id_to_benchmark) == int(bench_id)
-                    self._id_to_benchmark.append(benchmark)
+                try:
+                    if line.startswith(_METADATA_BENCHMARK):
+                        rest_line = line[len(_METADATA_BENCHMARK):]
+                        bench_id, bench_json = rest_line.split("=", 1)
+                        bench_dict = json.loads(bench_json)
+                        benchmark = self._data_store.create_benchmark_from_dict(bench_dict)
+                        assert benchmark not in self._benchmarks_in_file
+                        self._benchmarks_in_file[benchmark] = int(bench_id)
+                        assert len(self._id_to_benchmark) == int(bench_id)
+                        self._id_to_benchmark.append(benchmark)
 
-                elif line.startswith(_METADATA_RUN_ID):
-                    rest_line = line[len(_METADATA_RUN_ID):]
-                    run_id_id, run_json = rest_line.split("=", 1)
-                    run_dict = json.loads(run_json)
-                    assert "benchmark_id" in run_dict
-                    benchmark_id = int(run_dict["benchmark_id"])
-                    benchmark = self._id_to_benchmark[benchmark_id]
+                    elif line.startswith(_METADATA_RUN_ID):
+                        rest_line = line[len(_METADATA_RUN_ID):]
+                        run_id_id, run_json = rest_line.split("=", 1)
+                        run_dict = json.loads(run_json)
+                        assert "benchmark_id" in run_dict
+                        benchmark_id = int(run_dict["benchmark_id"])
+                        benchmark = self._id_to_benchmark[benchmark_id]
 
-                    run_id = self._data_store.create_run_id_from_dict(run_dict, benchmark)
-                    self._run_ids_in_file[run_id] = int(run_id_id)
-                    assert len(self._id_to_run_id) == int(run_id_id)
-                    self._id_to_run_id.append(run_id)
+                        run_id = self._data_store.create_run_id_from_dict(run_dict, benchmark)
+                        self._run_ids_in_file[run_id] = int(run_id_id)
+                        assert len(self._id_to_run_id) == int(run_id_id)
+                        self._id_to_run_id.append(run_id)
+                except (ValueError, KeyError, IndexError) as err:
+                    # an incompletely written record, e.g., after a crash: it describes nothing
+                    self.ui.debug_error_info(escape_braces(
+                        "Ignored unreadable metadata in data file: %s\n%s\n"
+                        % (self._data_filename, err)))
                 continue
 
             if line == csv_header:
